@@ -149,7 +149,7 @@ CLAIM = dict(
  text='For every program of the list that returned a verdict (see outside_the_claim for the complete attempt log) - depth-1 transpose, reshape, flatten, flip, slice, tile, pad, unary ufunc, ufunc with scalar, sum over an axis; '
       'depth-2/3 chains of them - over a hybrid 2-d operand with shape, data, every argument and the result index symbolic, the solver shows: the array returned by eval(view) (and by the array::transpose / array::flip front ends) '
       'exists, has the view\'s dim and shape and at every index the view\'s element, for the default, the row-major and the column-major result resolver; a caller-supplied output of the right shape with symbolic prior content '
-      'ends up equal to the view at every index; evaluating outer(inner(a)) once equals evaluating inner first and applying outer to the concrete result; the evaluated array stores the VIEW's element type when it differs from the operand's (uint8 operand + unsigned scalar: hybrid and fixed operands; utl-dynamic operand in the thorough tier); a zero-extent view (a[b:b, c:d]) and a 0-d result (reshape of one element to ()) are evaluated to arrays of exactly that shape; and the evaluator never returns early on a shape mismatch nor asks a bounded '
+      'ends up equal to the view at every index; evaluating outer(inner(a)) once equals evaluating inner first and applying outer to the concrete result; the evaluated array stores the element type of the VIEW when it differs from that of the operand (uint8 operand + unsigned scalar: hybrid and fixed operands; utl-dynamic operand in the thorough tier); a zero-extent view (a[b:b, c:d]) and a 0-d result (reshape of one element to ()) are evaluated to arrays of exactly that shape; and the evaluator never returns early on a shape mismatch nor asks a bounded '
       'buffer to exceed its capacity - except for the pending finding (default resolver, results larger than the operand, tile/pad), whose region is excluded and whose witness is replayed.',
  note='Bounded: extents 1..2/3 (quick) and 1..3/4 (thorough) per program as listed in each query; programs are enumerated (types). Programs without a verdict are listed, not claimed. '
       'Trusted: clang-14 -O1 lowering, engine/ll2c.py, CBMC; validated per run by gate and witness assertions.')
